@@ -366,10 +366,13 @@ func runWatched(c *Case, choices []int) (Trace, bool) {
 	select {
 	case tr := <-res:
 		return tr, true
-	case <-time.After(30 * time.Second):
-		return Trace{Err: "watchdog: controlled run did not finish within 30s (deadlock in the implementation?)", Chosen: choices}, false
+	case <-time.After(12 * time.Second):
+		return Trace{Err: "watchdog: controlled run did not finish within 12s (deadlock in the implementation?)", Chosen: choices}, false
 	}
 }
+
+// dirty: the run left goroutines behind that could not be released (hang inside the wrapper)
+func dirty(tr Trace) bool { return strings.Contains(tr.Err, "cleanup-timeout") }
 
 func runSched() {
 	channel.VerifYieldHook = hook
@@ -386,7 +389,7 @@ func runSched() {
 		if c.Explore <= 0 {
 			tr, ok := runWatched(&c, c.Choices)
 			out.Encode(map[string]any{"traces": []Trace{tr}})
-			if !ok {
+			if !ok || dirty(tr) {
 				os.Exit(3)
 			}
 			return
@@ -404,9 +407,15 @@ func runSched() {
 			stack = stack[:len(stack)-1]
 			tr, ok := runWatched(&c, prefix)
 			traces = append(traces, tr)
-			if !ok {
+			if !ok || dirty(tr) {
+				// goroutines of this run are still stuck inside the wrapper: the answer so far is reported at once (one
+				// failing schedule is enough for the configuration) and the process is replaced by the driver
 				out.Encode(map[string]any{"traces": traces, "complete": false})
 				os.Exit(3)
+			}
+			if tr.Err != "" {
+				complete = false
+				break
 			}
 			for d := len(tr.Chosen) - 1; d >= len(prefix); d-- {
 				for _, a := range tr.Alts[d] {
@@ -468,6 +477,9 @@ func runChild() {
 				hung++
 				runs = append(runs, nil)
 				go func() { defer func() { recover() }(); ch.Close() }()
+			}
+			if hung > 0 {
+				break // one hang is the finding; repeating it would only cost 5 s per run
 			}
 		}
 		out.Encode(map[string]any{"runs": runs, "hung": hung})
